@@ -312,7 +312,8 @@ def run_qc_check(ctx, spec):
             if i % 4 == 3:
                 # the same series as an integer array (signed, unsigned, masked); the carrier falls back to float64
                 # where the concrete values are not whole numbers
-                conc = dict(conc, xc=["i64", "u16", "i32", "ma_i64"][(i // 4) % 4])
+                conc = dict(conc, xc=["i64", "u16", "i32", "ma_i64"][(i // 4) % 4],
+                            ac=["ma_junk", "ma_mixed", "series_shuf", "list_none"][(i // 4) % 4])      # auxiliary inputs too
             rec.session(s, conc)
     ctx.cov["events_from_random_sessions"] = len(rec.events) - n_rp
     # 3. extra sessions supplied by the property (carriers, short series, ...)
